@@ -43,6 +43,7 @@ def replay(pid, unit, cex, path):
                 if nat["width"] != cex["width"]: bad.append("add_keeps_width_epsilon")
                 if (nat["result"] == "true") != (not was_tracked): bad.append("add_returns_true_iff_untracked")
                 if not lossy_inv_A([tuple(e) for e in nat["known"]], T2, nat["n"], nat["width"]): bad.append("add_preserves_frequency_invariant")
+                if any(f + d <= nat["n"] // nat["width"] for _, f, d in nat["known"]): bad.append("add_keeps_table_pruned_for_size_bound")
             return bad, path, nat
         if op == "query":
             txt = "\n".join(["# engine: M", "exec lossy", "width %d" % cex["width"], "n %d" % cex["n"], "op query", "a64 %d" % cex["a64"],
@@ -83,6 +84,16 @@ def replay(pid, unit, cex, path):
                         ok = False
             if not ok:
                 bad.append("add_preserves_topk_invariant")
+            return bad, path, nat
+        if op == "clear":
+            # clear() takes no input: any tracked state with a non-zero sketch cell shows whether everything is reset
+            txt = "\n".join(["# engine: M", "exec heap", "k 2", "c 5", "op clear", "map 1:3,2:4", "tree 1:3,2:4"]) + "\n"
+            nat = mrun.native_exec(txt, path)
+            if nat.get("error"):
+                return [], path, nat
+            bad = []
+            if nat.get("cms_cell", 0) != 0: bad.append("clear_clears_sketch")
+            if nat["map"] or nat["tree"] or not nat.get("is_empty"): bad.append("clear_empties_map_and_tree")
             return bad, path, nat
         return [], path, {"error": "no native replay for heap op %s" % op}
     if model == "kernel" and cex.get("op") == "add_hashed":
